@@ -97,6 +97,11 @@ func setupPass() {
 	c.UserAgent = "zv"
 	config.GenerateCrawlConfig()
 	os.MkdirAll(c.JobPath, 0o755)
+	// the spooled temp file goes straight to disk when the machine is short of memory: the directory
+	// must exist (in a real run the WARC client creates it)
+	if c.WARCTempDir != "" {
+		os.MkdirAll(c.WARCTempDir, 0o755)
+	}
 	stats.Init()
 	if err := seencheck.Start(c.JobPath); err != nil {
 		panic(err)
@@ -263,6 +268,9 @@ func (h *passHarness) fakeArchiver() {
 				it.GetURL().SetResponse(resp)
 				c := config.Get()
 				if err := archiver.ProcessBody(it.GetURL(), c.DisableAssetsCapture, false, c.MaxHops, c.WARCTempDir); err != nil {
+					if os.Getenv("ZV_DEBUG") != "" {
+						fmt.Fprintln(os.Stderr, "ProcessBody:", err)
+					}
 					it.SetStatus(models.ItemFailed)
 					continue
 				}
